@@ -1,10 +1,12 @@
 //! The faulty network of the simulation: a `bach` queue allocator modelled on
 //! `bach::environment::net::queue::Fixed::for_udp`, plus a decision per datagram taken from
-//! the generated case (tapes per direction, blackhole phases, one single fault by global index).
+//! the generated case (tapes per direction, blackhole phases, one single fault by global index,
+//! faults addressed by packet class + ordinal or as "the n-th retransmission of the bytes of
+//! the k-th stream packet", resolved from the cleartext packet headers).
 //! Drop = the datagram never enters the wire; Dup = it enters twice; Delay = extra one-way
 //! latency for this datagram only, so later datagrams overtake it.
 
-use crate::case::{Fault, NetCase};
+use crate::case::{Fault, NetCase, PktKind, Target};
 use bach::{
     environment::net::{
         ip::{Packet, Segments},
@@ -75,6 +77,13 @@ pub struct NetStats {
     /// order-sensitive digest of (time, direction, length, decision) of every datagram
     pub digest: u64,
     pub bytes: u64,
+    /// datagrams per direction [up, down] and class [stream, recovery, control]
+    pub sent_kind: [[u32; 3]; 2],
+    /// targeted faults that found their datagram
+    pub targeted_applied: u64,
+    /// lost recovery-space packets that carried bytes of a lost stream-space packet of the same
+    /// stream again (only counted in runs with targeted faults, which parse the headers)
+    pub retx_of_lost_dropped: u64,
 }
 
 #[derive(Clone, Copy, Debug)]
@@ -103,6 +112,30 @@ pub struct NetState {
     client_ips: Vec<(std::net::IpAddr, usize)>,
     /// per client: (time, client -> server?) of every datagram handed to the network
     pub flows: Vec<Vec<(u64, bool)>>,
+    /// runs with targeted faults: (stream, offset, payload length) of every stream-space
+    /// packet per direction, in send order
+    stream_pkts: [Vec<PktRange>; 2],
+    /// the lost ones of them
+    lost_stream_pkts: [Vec<PktRange>; 2],
+    /// per targeted fault: matching recovery-space packets seen so far (`Target::RetxOf`)
+    retx_seen: Vec<u32>,
+}
+
+/// (hash of credentials + stream id, stream offset, payload length) from the cleartext header
+type PktRange = (u64, u64, u64);
+
+fn parse_stream_header(payload: &[u8]) -> Option<PktRange> {
+    use s2n_quic_core::packet::interceptor::DecoderBufferMut;
+    use s2n_quic_dc::packet::stream::decoder::Packet;
+    let mut copy = payload.to_vec();
+    let (p, _) = Packet::decode(DecoderBufferMut::new(&mut copy), (), 16).ok()?;
+    let id = vcore::hash_of(&format!("{:?} {:?}", p.credentials(), p.stream_id()));
+    Some((id, p.stream_offset().as_u64(), p.payload().len() as u64))
+}
+
+/// `b` carries bytes of `a` again (a packet without payload: any later packet of the stream)
+fn recarries(a: &PktRange, b: &PktRange) -> bool {
+    a.0 == b.0 && (a.2 == 0 || (b.2 > 0 && b.1 < a.1 + a.2 && a.1 < b.1 + b.2))
 }
 
 pub type SharedNet = Arc<Mutex<NetState>>;
@@ -119,6 +152,9 @@ pub fn new_state(cfg: &NetCase, log: bool) -> SharedNet {
         log: if log { Some(vec![]) } else { None },
         client_ips: vec![],
         flows: vec![vec![]; crate::case::MAX_CLIENTS],
+        stream_pkts: [vec![], vec![]],
+        lost_stream_pkts: [vec![], vec![]],
+        retx_seen: vec![0; cfg.targeted.len()],
     }))
 }
 
@@ -159,6 +195,57 @@ impl NetState {
         }
         self.global_idx += 1;
 
+        // faults addressed by class and ordinal
+        let pkt_kind = match kind {
+            Kind::Stream => Some(PktKind::Stream),
+            Kind::Recovery => Some(PktKind::Recovery),
+            Kind::Control => Some(PktKind::Control),
+            _ => None,
+        };
+        let mut range = None;
+        if let Some(pk) = pkt_kind {
+            let ord = self.stats.sent_kind[d][pk as usize];
+            self.stats.sent_kind[d][pk as usize] += 1;
+            if !self.cfg.targeted.is_empty() {
+                if pk != PktKind::Control {
+                    range = parse_stream_header(payload);
+                }
+                if let (PktKind::Stream, Some(r)) = (pk, range) {
+                    self.stream_pkts[d].push(r);
+                } else if pk == PktKind::Stream {
+                    // keeps the ordinals aligned; matches nothing
+                    self.stream_pkts[d].push((u64::MAX, 0, 0));
+                }
+                let mut hit = None;
+                for (ti, t) in self.cfg.targeted.iter().enumerate() {
+                    if t.up != up {
+                        continue;
+                    }
+                    let m = match t.target {
+                        Target::Nth { kind: tk, n } => tk == pk && n as u32 == ord,
+                        Target::RetxOf { k, n } => {
+                            let again = pk == PktKind::Recovery
+                                && match (self.stream_pkts[d].get(k as usize), &range) {
+                                    (Some(orig), Some(r)) => recarries(orig, r),
+                                    _ => false,
+                                };
+                            if again {
+                                self.retx_seen[ti] += 1;
+                            }
+                            again && self.retx_seen[ti] == n as u32 + 1
+                        }
+                    };
+                    if m && hit.is_none() {
+                        hit = Some(t.fault);
+                    }
+                }
+                if let Some(f) = hit {
+                    fault = f;
+                    self.stats.targeted_applied += 1;
+                }
+            }
+        }
+
         let blackholed = self.kill[d]
             || self.cfg.blackholes.iter().any(|b| {
                 (if up { b.up } else { b.down }) && b.from_us <= now_us && now_us < b.to_us
@@ -178,6 +265,13 @@ impl NetState {
             vcore::hash_of(&(self.stats.digest, now_us, up, payload.len() as u64, code));
 
         if blackholed || fault == Fault::Drop {
+            if let Some(r) = range {
+                if kind == Kind::Stream {
+                    self.lost_stream_pkts[d].push(r);
+                } else if self.lost_stream_pkts[d].iter().any(|o| recarries(o, &r)) {
+                    self.stats.retx_of_lost_dropped += 1;
+                }
+            }
             match kind {
                 Kind::Stream => self.stats.dropped_stream += 1,
                 Kind::Recovery => self.stats.dropped_recovery += 1,
